@@ -69,6 +69,7 @@ FIXED = [
  ("KF-C01-14", "C01", "911aeb0", "demo:findings/review/R7/demo_3b.py", "a `global` declaration inside an inner function or class body kept the name out of the outer function's entry fetch: f > H accepted but silent, an override ignored (regression of c7da0f8)"),
  ("KF-C09-8", "C09", "b375fc4", "C09.no_foreign_events", "a generator entered under one call of a function on its path and resumed by a later call of it reports the values of the call that is over (pump(q) > gen > g > a carries q of the first call of pump), applies its conditions and overrides, and goes on filling its record (regression of e0fd03f, which kept the old pairs)"),
  ("KF-C01-15", "C01", "5ca80a5", "demo:findings/review/R8/demo_4.py", "a class defined in the function whose body declares a global and assigns it: reading that global afterwards in the function fails with UnboundLocalError once instrumented (regression of 911aeb0, which looked at the function's own statements only)"),
+ ("KF-C03-9", "C03", "0efd7b7", "demo:findings/review/extra/demo_fit_cache.py", "re-entering a resumed generator for the call that resumes it reads the selector fit cache without filling it: KeyError when the cache does not hold the entry (found by the behaviour-preserving canary that switches the cache off; the script empties the cache by hand)"),
  ("KF-C08-3", "C08", "a93c42f", "C08.no_exception", "a thread that selects a function through its reference string while another thread activates or deactivates a probe on it is refused: 'Reference ... cannot be resolved' / 'is ambiguous' (the lookup is not covered by the tooling lock)"),
  ("KF-C08-4", "C08", "184cfaa", "demo:findings/review/R3/demo_6b.py", "tooled.inplace runs outside the tooling lock: a probe activated by another thread in between leaves the function refused ('not properly tooled') for good (regression of be94eb2 + 58916a9)"),
  ("KF-C08-2", "C08", "13c39f3", "C08.thread_result", "a thread calling f by name while another thread's probe activation compiles f's variant runs the variant function object (its events are lost, or its self-reference global is not installed yet: NameError '_ptera__N')"),
